@@ -135,10 +135,11 @@ def one_call(segno, content, micro, delay, kw, env):
 def run(tier):
     t0 = time.time()
     rep = engine.Report('show', tier)
-    out, st = common.run_tlc('Show', cfg='Show.cfg', workers=2, timeout=600, xmx='2g', coverage=True)
+    cfg = 'Show.cfg' if tier == 'quick' else 'Show_thorough.cfg'
+    out, st = common.run_tlc('Show', cfg=cfg, workers=2, timeout=600, xmx='2g', coverage=True)
     if not common.tlc_ok(out, st):
-        raise common.MachineryError('TLC failed on Show.cfg\n' + out[-2000:])
-    rep.add_design('Show', 'Show.cfg', out, st, 'caller x deleter x environment, delays None, 0..3; 8 invariants, action property ReturnDoesNotWait, '
+        raise common.MachineryError(f'TLC failed on {cfg}\n' + out[-2000:])
+    rep.add_design('Show', cfg, out, st, 'caller x deleter x environment, delays None, 0..3 (quick) / 0..8 (thorough); 8 invariants, action property ReturnDoesNotWait, '
                    'liveness Terminates / EventuallyDeleted / KeptWithoutDelay under weak fairness')
     segno = common.use_repo()
     delays = DELAYS_QUICK if tier == 'quick' else DELAYS_THOROUGH
